@@ -1,8 +1,11 @@
 package main
 
+// C01 / C02: transaction-rule scenarios on nodesim (sim/nodesim/txrules.go, c01.go, c02.go).
+// Quick = 1200 runs: measured 0.14-0.26 s per run on a loaded 16-core box; every seeded
+// breakage of the sensitivity experiments was found within 480 runs.
 func init() {
 	props["C01"] = &propCfg{Engine: "nodesim", Test: "TestC01", Level: "exploration",
-		Quick: tierCfg{Runs: 1600, JobSize: 100, BudgetS: 150}, Thorough: tierCfg{Runs: 48000, JobSize: 200, BudgetS: 1500}}
+		Quick: tierCfg{Runs: 1200, JobSize: 75, BudgetS: 150}, Thorough: tierCfg{Runs: 48000, JobSize: 200, BudgetS: 1500}}
 	props["C02"] = &propCfg{Engine: "nodesim", Test: "TestC02", Level: "exploration",
-		Quick: tierCfg{Runs: 1600, JobSize: 100, BudgetS: 150}, Thorough: tierCfg{Runs: 48000, JobSize: 200, BudgetS: 1500}}
+		Quick: tierCfg{Runs: 1200, JobSize: 75, BudgetS: 150}, Thorough: tierCfg{Runs: 48000, JobSize: 200, BudgetS: 1500}}
 }
